@@ -125,6 +125,8 @@ class _H5Proxy:
         self._plan = plan
 
     def File(self, name, mode='r', *a, **k):          # noqa: N802
+        from . import seams_fs
+        seams_fs.preempt(f'open:{name}')
         kind = 'open_r' if mode == 'r' else 'open_w'
         self._plan.hit(kind, 'before', f'{name} mode={mode}')
         f = self._real.File(name, mode, *a, **k)
